@@ -209,6 +209,21 @@ pub fn run(ctx: &mut Ctx) {
             case_ops(ctx, &fields.join(","), &ops.join(";"));
         }
     }
+    // (2b) names that differ only in one non-letter byte, in particular by bit 5 (^ ~, | \, ` @, _ DEL, digits and controls):
+    // only ASCII letters fold; every ASCII byte x its partner under each single-bit flip, looked up and removed both ways
+    for b in 0u8..128 {
+        for bit in [0x20u8, 0x40, 0x01, 0x10] {
+            let p = b ^ bit;
+            if p >= 128 { continue; }
+            let n1 = hex(&[b'n', b, b'z']);
+            let n2 = hex(&[b'n', p, b'z']);
+            let fields = format!("{n1}:{},{n2}:{},{n1}:{}", hex(b"1"), hex(b"2"), hex(b"3"));
+            for ops in [format!("ga:{n1};go:{n2};ra:{n2};ga:{n1}"), format!("go:{n1};ro:{n2};ga:{n2};ra:{n1}")] {
+                idx += 1;
+                if ctx.mine(idx) { case_ops(ctx, &fields, &ops); }
+            }
+        }
+    }
     // (3) AsciiString constructors on ASCII and non-ASCII input
     let inputs: Vec<String> = vec![
         "".into(), "a".into(), "abc XYZ 09~".into(), "\u{7f}".into(), "\u{80}".into(), "é".into(),
